@@ -81,7 +81,7 @@ def make_scenarios(h, small, mate, rep, game, label, fam=0):
 
 def run_expiry(run, pid, h, scen, tags, depth, cap, budget, maxmate, label, also=()):
     d = R.trace_dir(pid + "-" + label)
-    summ = vcommon.run_harness(h, ["expiry", "--scen", scen, "--out", d, "--shards", vcommon.NCPU, "--seed", vcommon.seed(), "--depth", depth,
+    summ = vcommon.run_harness(h, ["expiry", "--scen", scen, "--out", d, "--shards", vcommon.NCPU * (1 if run.tier == "quick" else 4), "--seed", vcommon.seed(), "--depth", depth,
                                    "--cap", cap, "--budget", budget, "--tags", tags, "--tag", label])
     files = sorted(glob.glob(os.path.join(d, "search*.ndjson")))
     results = vcommon.validate_shards("TraceSearch", "TraceSearch.cfg", files, env_extra={"MAXMATE": str(maxmate)})
@@ -95,7 +95,7 @@ def run_expiry(run, pid, h, scen, tags, depth, cap, budget, maxmate, label, also
 
 def run_trees(run, pid, h, scen, tags, depth, cap, budget, label):
     d = R.trace_dir(pid + "-" + label)
-    summ = vcommon.run_harness(h, ["trees", "--scen", scen, "--out", d, "--shards", vcommon.NCPU, "--depth", depth, "--cap", cap, "--budget", budget, "--tags", tags])
+    summ = vcommon.run_harness(h, ["trees", "--scen", scen, "--out", d, "--shards", vcommon.NCPU * (1 if run.tier == "quick" else 6), "--depth", depth, "--cap", cap, "--budget", budget, "--tags", tags])
     files = sorted(glob.glob(os.path.join(d, "search*.ndjson")))
     results = vcommon.validate_shards("TraceSearch", "TraceSearch.cfg", files, env_extra={"MAXMATE": "2"})
     totals = judge(run, pid, results, "tree")
